@@ -327,7 +327,7 @@ def evaluate(ctx, r, lines, n_exported, killed, conc):
                      "ncalls": m["ncalls"], "want": m.get("want"), "got": m.get("got"), "panic": m.get("panic", ""),
                      "cfg": m["cfg"], "repro_on_fresh_plugin": m.get("repro_on_fresh_plugin"), "case": m["case"]})
     if r.get("mismatch_classes"):
-        vlib.log("mismatches by class (conc families): %s" % json.dumps(r["mismatch_classes"], sort_keys=True))
+        vlib.log("mismatches by class: %s" % json.dumps(r["mismatch_classes"], sort_keys=True))
         ctx.extra["mismatch_classes"] = r["mismatch_classes"]
     if r.get("mismatch_count", 0) > len(recs):
         vlib.log("(%d mismatches in total, first %d kept)" % (r["mismatch_count"], len(recs)))
